@@ -151,6 +151,19 @@ def _map_loop_shape(body):
     return apps, assigned
 
 
+def _yield_loop_shape(body):
+    """nested `for` loops whose innermost statements are plain `yield expr`"""
+    if not body:
+        return False
+    for st in body:
+        if isinstance(st, ast.Expr) and isinstance(st.value, ast.Yield):
+            continue
+        if isinstance(st, ast.For) and not st.orelse and _yield_loop_shape(st.body):
+            continue
+        return False
+    return True
+
+
 def _search_loop_shape(body):
     """`for x in seq: if cond(x): raise ...` - a universal check"""
     if len(body) != 1 or not isinstance(body[0], ast.If) or body[0].orelse:
@@ -221,6 +234,17 @@ def exec_symbolic_for(interp, node, seq, env):
         raise Unsupported("for/else over a symbolic sequence")
     if _search_loop_shape(node.body):
         return _exec_search_loop(interp, node, seq, env)
+    if _yield_loop_shape(node.body):
+        # generator: one generic item per (nested) loop level
+        e = env
+        while e is not None and "$yield" not in e.vars:
+            e = e.parent
+        if e is not None:
+            e.vars["$yield_symbolic"] = True
+            j = c.fresh_index(seq.n, "y")
+            interp.assign(node.target, seq.elem(j), env)
+            interp.exec_block(node.body, env)
+            return
     shape = _map_loop_shape(node.body)
     if shape is None:
         raise Unsupported(f"loop over a symbolic sequence at line {node.lineno} is not a pure map and has no invariant")
